@@ -135,8 +135,10 @@ fn digest(real: &Real, rec: &Recorder) -> Vec<u8> {
 /// real signing path of a freshly built row: (sign accepted it, signature)
 fn sign_real(real: &Real, rec: &Recorder) -> (bool, Vec<u8>) {
     match real {
-        Real::Node(n) => { let mut n = n.clone(); let ok = n.sign(&rec.inner).is_ok(); (ok, n._signature) }
-        Real::Edge(e) => { let mut e = e.clone(); let ok = e.sign(&rec.inner).is_ok(); (ok, e.signature) }
+        Real::Node(n) => { let mut n = n.clone(); let ok = n.sign(&rec.inner).is_ok(); (ok, if ok { n._signature } else { vec![] }) }
+        // since 6d1bd7f Edge::sign fills the signature in before it checks the size: a refused edge is an Err for
+        // every caller (`edge.sign(key)?`), so no signature counts as produced
+        Real::Edge(e) => { let mut e = e.clone(); let ok = e.sign(&rec.inner).is_ok(); (ok, if ok { e.signature } else { vec![] }) }
         Real::NDel { room, id, mdate, entity, ddate, key } => (true, NodeDeletionEntry::sign(room, &node_stub(id, *mdate, entity), *ddate, key, &rec.inner)),
         Real::EDel { room, src, se, label, dest, cdate, ddate, key } => (true, EdgeDeletionEntry::sign(room, &edge_stub(src, se, label, dest, *cdate), *ddate, key, &rec.inner)),
         Real::Invite(_) | Real::Ann(_, _) => (true, rec.inner.sign(&digest(real, rec))),   // what GraphDatabaseService::sign does with the digest
